@@ -80,14 +80,18 @@ int main(int argc, char** argv) {
             Opcode::Opcode op = OPVALS[oi];
             int args = Opcode::args(op);
             if (args != 1 && args != 2) continue;
-            for (float expo : {2.0f, 3.0f}) {
+            // constant exponents: POW and NTH_ROOT branch on the sign / parity / size of the exponent
+            // (a negative power goes through the reciprocal, 0 and 1 through shortcuts)
+            for (float expo : {2.0f, 3.0f, -1.0f, -2.0f, -3.0f, 0.0f, 1.0f, 4.0f, 5.0f}) {
                 Tree t = Tree::X();
                 bool cexp = (op == Opcode::OP_POW || op == Opcode::OP_NTH_ROOT);
                 if (args == 1) t = Tree::unary(op, Tree::X());
                 else if (cexp) t = Tree::binary(op, Tree::X(), Tree(expo));
                 else t = Tree::binary(op, Tree::X(), Tree::Y());
-                if (!cexp && expo == 3.0f) continue;
-                std::string base = std::string(OPNAMES[oi]) + (cexp ? (expo == 2.0f ? "^2" : "^3") : "");
+                if (!cexp && expo != 2.0f) continue;
+                if (op == Opcode::OP_NTH_ROOT && expo < 1.0f) continue;
+                char ex[16]; snprintf(ex, sizeof ex, "^%g", expo);
+                std::string base = std::string(OPNAMES[oi]) + (cexp ? ex : "");
                 Evaluator ev(t);
                 for (float a : classes) for (float b : {a, 2.0f, -3.0f, 0.0f}) {
                     if (cexp && b != a) continue;
